@@ -111,8 +111,23 @@ def _run_cli(cmd, smt, timeout_s, want_model):
     return 'unknown', {'raw': out[:500]}, dt
 
 
+def _cvc5_dialect(smt):
+    """z3 prints single characters as (seq.unit (_ Char N)) / (_ Char N);
+    cvc5 1.0 wants string literals / (_ char #xH)"""
+    def unit(m):
+        n = int(m.group(1))
+        if n == 34:
+            return '"\"\""'
+        if 32 <= n < 127 and n != 92:
+            return '"%s"' % chr(n)
+        return '"\\u{%x}"' % n
+    smt = re.sub(r'\(seq\.unit \(_ Char (\d+)\)\)', unit, smt)
+    smt = re.sub(r'\(_ Char (\d+)\)', lambda m: '(_ char #x%x)' % int(m.group(1)), smt)
+    return smt
+
+
 def _cvc5(smt, want_model):
-    text = '(set-logic ALL)\n' + smt
+    text = '(set-logic ALL)\n' + _cvc5_dialect(smt)
     cmd = ['/usr/bin/cvc5', '--strings-exp', '--tlimit=%d' % (
         CVC5_TIMEOUT_S * 1000)]
     if want_model:
